@@ -53,7 +53,7 @@ def required_reach(tier: str) -> dict[str, int]:
     return {"contention.during-pending": 5, "contention.during-retry": 3, "tp.inside-window-attempt": 5, "cancel.while-holding": 5,
             "cancel.while-waiting": 5, "late-reply-surfaced-as-error": 3, "histories": 500, "overlapping-histories": 200,
             "reconnect.contended": 3, "results.owned": 1000, "transport-mode.calls": 200, "cancel.during-db-insert": 20, "cancel.reconnector": 20,
-            "db-logging.histories": 200}
+            "db-logging.histories": 200, "raw-form.calls": 500}
 
 
 class Wire:
@@ -174,6 +174,8 @@ def build_case(rng: random.Random) -> dict[str, Any]:
             "reconnect_at": rng.choice([None, None, 0.05, 0.6, 1.5]), "yield_seed": rng.randrange(1 << 30), "mode": "client",
             # reconnect(timeout=t): t bounds the reconnect itself; a reconnect queued behind a long exchange must not disturb it
             "reconnect_timeout": rng.choice([None, None, 0.1, 0.4, 2]),
+            # callers may use the raw request form (send_raw), which must be matched against its own reply just as strictly
+            "raw": rng.random() < 0.35,
             # a database handler whose insert is a suspension point (as the real queue put / a full queue is): logging happens after the
             # exchange, outside the client mutex
             "db": rng.random() < 0.4}
@@ -242,6 +244,9 @@ async def run_history(case: dict[str, Any], cancel_at: int | None, cancel_idx: i
                 if case.get("mode") == "transport":
                     r = _R(await wire.transport.request(bytes([0x22]) + did.to_bytes(2, "big"), timeout=c.get("timeout", case["timeout"])))
                     ctx_reach.append("transport-mode.calls")
+                elif case.get("raw"):
+                    r = await ecu.send_raw(bytes([0x22]) + did.to_bytes(2, "big"))
+                    ctx_reach.append("raw-form.calls")
                 else:
                     r = await ecu.read_data_by_identifier(did)
                 hist.append(("return", name, ("ok", r.pdu), loop.time()))
